@@ -449,11 +449,15 @@ void
 oscore_roll_back_seq(oscore_recipient_ctx_t *ctx) {
 
   if (ctx->rollback_sliding_window != 0) {
+    /* 0 is a valid sequence number, the saved window tells if there is a saved state */
     ctx->sliding_window = ctx->rollback_sliding_window;
-    ctx->rollback_sliding_window = 0;
-  }
-  if (ctx->rollback_last_seq != 0) {
     ctx->last_seq = ctx->rollback_last_seq;
+    ctx->rollback_sliding_window = 0;
     ctx->rollback_last_seq = 0;
+  } else {
+    /* The window was (at most) started by the message that failed */
+    ctx->initial_state = 1;
+    ctx->sliding_window = 0;
+    ctx->last_seq = 0;
   }
 }
